@@ -43,17 +43,10 @@ pub fn check(c: &Case, dynq: &[String]) -> Checked {
     };
     let inp = input_fn(c.input_seed, c.finite_inputs);
     // dynamic quarantine predicates are evaluated on the reference execution
-    if let Some(prog) = &c.prog
-        && let Ok((_, flags)) = refsem::run(prog, c.n, &inp)
-    {
-        for (flag, q) in [("modulo_non_integer_operand", "modulo")] {
-            if flags.contains(flag) && dynq.iter().any(|x| x == q) {
-                res.dyn_quarantine.push(q);
-            }
-        }
-        if !res.dyn_quarantine.is_empty() {
-            return res;
-        }
+    let _ = dynq;
+    res.dyn_quarantine = super::progcase::dyn_quarantined(c);
+    if !res.dyn_quarantine.is_empty() {
+        return res;
     }
     let path = c.path.as_ref().map(PathBuf::from);
     let vm = run_program(Backend::Vm, &c.src, c.scheduler, c.n, &inp, true, path.clone());
@@ -184,7 +177,23 @@ pub fn corpus_files(repo: &str) -> Vec<PathBuf> {
             v.extend(fs);
         }
     }
+    // hand-written programs for feature combinations the typed generator does not build
+    // (recursion through closures, scheduler ties, auto-spread of stateful functions, sum types ...)
+    if let Ok(rd) = std::fs::read_dir(verif_dir().join("corpus/programs")) {
+        let mut fs: Vec<PathBuf> =
+            rd.filter_map(|e| e.ok()).map(|e| e.path()).filter(|p| p.extension().is_some_and(|x| x == "mmm")).collect();
+        fs.sort();
+        v.extend(fs);
+    }
     v
+}
+
+/// the verification directory (set by ./check; falls back to the crate's parent)
+pub fn verif_dir() -> PathBuf {
+    match std::env::var_os("MMV_VERIF") {
+        Some(d) => PathBuf::from(d),
+        None => PathBuf::from(env!("CARGO_MANIFEST_DIR")).join(".."),
+    }
 }
 
 /// token-level mutations that often still compile: swap an operator, perturb a number literal
